@@ -267,6 +267,10 @@ fn ops_for(len: u8, max_len: u8, alpha: Alphabet, bursts: &[u8], out: &mut Vec<T
             if room >= 2 {
                 out.push(Tok::Op(Op::Append(2)));
             }
+            if room >= 70 {
+                // a payload beyond one 64-item chunk
+                out.push(Tok::Op(Op::Append(70)));
+            }
             out.push(Tok::Op(Op::PopFront));
             out.push(Tok::Op(Op::PopBack));
             for &i in &pos {
@@ -1576,7 +1580,35 @@ impl<E: El> World<E> {
                     for _ in 0..times {
                         let pre = self.r.vec.clone();
                         let ob = self.ob.as_mut().unwrap();
-                        let notify = apply_op(ob, op, &mut self.r.vec, &mut self.r.next_id, i, st)?;
+                        let notify = match apply_op(ob, op, &mut self.r.vec, &mut self.r.next_id, i, st) {
+                            Ok(n) => n,
+                            Err(v) if self.r.cfg.prop == "C05" && v.sig.starts_with("contents/") && self.r.probe.is_some() => {
+                                // The vector did not do what a plain vector does (C17's
+                                // statement). C05's own question is still open: do the
+                                // published diffs reproduce what the vector really became?
+                                let real = kids_im(self.ob.as_ref().unwrap());
+                                let mut replay: Vec<E> = Vec::new();
+                                if let Some(p) = self.r.probe.as_ref() {
+                                    replay = p.replica.clone();
+                                }
+                                if let Some(batch) = self.r.poll_probe(st)? {
+                                    let mut ok = true;
+                                    for d in &batch {
+                                        ok &= apply_checked(d, &mut replay).is_ok();
+                                    }
+                                    if !ok || kids(&replay) != real {
+                                        return Err(viol(
+                                            "C05",
+                                            i,
+                                            "message-does-not-reach-post-state",
+                                            format!("published {:?}: takes {:?} to {:?}, but the vector went from {:?} to {:?} ({})", batch, pre, kids(&replay), pre, real, v.detail),
+                                        ));
+                                    }
+                                }
+                                return Err(v);
+                            }
+                            Err(v) => return Err(v),
+                        };
                         // direct no-ops are documented: clear on empty included
                         let notify = if matches!(op, Op::Clear) && pre.is_empty() { (false, false) } else { notify };
                         self.r.after_call(notify, &pre, true, st)?;
@@ -2077,7 +2109,7 @@ fn tree_vec_cfgs(prop: &'static str, oob: bool) -> Vec<Cfg> {
         for capacity in [16usize, 1] {
             cfgs.push(Cfg {
                 init_len: len,
-                max_len: len + 3,
+                max_len: len + 73,
                 capacity,
                 alphabet: Alphabet::Tree,
                 pre_subs: vec![(Kind::Plain, Policy::Manual), (Kind::Batched, Policy::Manual)],
